@@ -398,6 +398,22 @@ def fast_path_guard(an, fn, node, data_expr, avoid=None, assume=()):
     field and the receiver's, where the data handed on is X (or comes from iterating X)?  With *avoid* (the nodes that
     re-define the data variable) only the paths on which the original value is still live are considered."""
     cls = fn.cls
+    if isinstance(data_expr, ast.Name):
+        # the outcomes that say "the data is empty" carry nothing into the container: the guard has to hold on the other paths
+        from engine.defuse import reaching_defs as _rdefs
+        rd0 = _rdefs(fn)
+        here0 = {id(d) for d in rd0.reaching(node, data_expr.id)}
+        empties = set()
+        for t in an.cfg(fn).nodes:
+            if t.kind != "test" or t.ast is None:
+                continue
+            e0, lbl0 = t.ast, False
+            if isinstance(e0, ast.UnaryOp) and isinstance(e0.op, ast.Not):
+                e0, lbl0 = e0.operand, True
+            if isinstance(e0, ast.Name) and e0.id == data_expr.id and {id(d) for d in rd0.reaching(t, e0.id)} <= here0 | ({id(d) for d in rd0.reaching(t, e0.id)} if avoid else set()):
+                empties.add((t, lbl0))
+        if empties:
+            avoid = set(avoid or ()) | empties
     atoms = guard_atoms(an, fn, node, avoid, extra=assume)      # dominating outcomes (and the tests of enclosing conditional expressions), local flags written out
     xs = set()
     for e, truth, t in atoms:
